@@ -182,6 +182,20 @@ pub fn gen_identstream(rng: &mut Rng, _n: usize, thorough: bool) -> Vec<Case> {
                     let mut f = file.clone();
                     f[0] = 0; f[6] = 9;
                     out.push((format!("stream {} - - {}", spec, hex(&f)), "ident|defect2".into()));
+                    // a reader handed over with its cursor past the magic / past the ident / at and past the end; and a
+                    // file that carries a header image of the other byte order further in (cursor left on it)
+                    for p0 in [4usize, 16, file.len(), file.len() + 3] {
+                        out.push((format!("stream {} p{} - {}", spec, p0, hex(&file)), "ident|clean|handed-over".into()));
+                        let mut f = file.clone();
+                        f[5] = 3;
+                        out.push((format!("stream {} p{} - {}", spec, p0, hex(&f)), "ident|defect|handed-over".into()));
+                    }
+                    if extra == 0 {
+                        let other = Obj::new(is64, !le).build(&[]).bytes;
+                        let mut f = file.clone();
+                        f.extend(&other);
+                        out.push((format!("stream {} p{} - {}", spec, file.len(), hex(&f)), "ident|embedded-other-order|handed-over".into()));
+                    }
                 }
             }
             for cut in [0usize, 1, 4, 8, 15, 16, 17, 51] {
@@ -190,6 +204,30 @@ pub fn gen_identstream(rng: &mut Rng, _n: usize, thorough: bool) -> Vec<Case> {
                 }
             }
         }
+    }
+    out
+}
+
+/// the three version sections in every relative order of their section headers (and with VERNEED or VERDEF
+/// missing), queried through both parsers: which header comes first must not matter
+pub fn gen_verorder(rng: &mut Rng, n: usize, _thorough: bool) -> Vec<Case> {
+    let mut out = vec![];
+    let mut seen: Vec<Vec<u32>> = vec![];
+    let want = 6 + 4;
+    for _ in 0..600 {
+        if seen.len() >= want * n.max(1) { break; }
+        let fc = crate::gen3::rand_object_kind(rng, true, true);
+        if fc.kinds.contains(&"dup-versym") { continue; }
+        let order: Vec<u32> = fc.obj.secs.iter().map(|s| s.sh_type)
+            .filter(|t| [SHT_GNU_VERSYM, SHT_GNU_VERNEED, SHT_GNU_VERDEF].contains(t)).collect();
+        if !order.contains(&SHT_GNU_VERSYM) || order.len() < 2 { continue; }
+        if seen.iter().filter(|o| **o == order).count() >= n.max(1) { continue; }
+        seen.push(order.clone());
+        let vq = fc.queries.iter().find(|q| q.starts_with('V')).cloned().unwrap_or_else(|| "V0.1.2.3".into());
+        let h = hex(&fc.built.bytes);
+        let ann = format!("verorder={}", order.iter().map(|t| match *t { SHT_GNU_VERSYM => "S", SHT_GNU_VERNEED => "N", _ => "D" }).collect::<Vec<_>>().join(""));
+        out.push((format!("file any {} {}", vq, h), ann.clone()));
+        out.push((format!("stream any - {},Y,{} {}", vq, vq, h), ann));
     }
     out
 }
